@@ -675,3 +675,38 @@ fn hashkey_replay() {
         println!("OBSERVED: {}", bad.join("; "));
     }
 }
+
+// ---------------------------------------------------------------------------------------------
+// E3o replay (C03): a two-operand collection primitive (VERIF_ROLE_CALL = "name|A|B", A and B expressions with an
+// overlapping key) under the four sharing patterns -- each operand either held by a global (shared) or built in place
+// (uniquely referenced).  The four answers must be equal?, and the operands held by globals must be unchanged.
+#[test]
+fn roles_replay() {
+    let spec = std::env::var("VERIF_ROLE_CALL").expect("VERIF_ROLE_CALL");
+    let parts: Vec<&str> = spec.split('|').collect();
+    let (name, a, b) = (parts[0], parts[1], parts[2]);
+    let mut engine = Engine::new();
+    let mut eval = |src: String| engine.run(src).map(|vals| vals.last().map(|v| v.to_string()).unwrap_or_default()).map_err(|e| e.to_string());
+    eval(format!("(define ga {}) (define gb {}) (define ga-copy {}) (define gb-copy {})", a, b, a, b)).unwrap();
+    // canonical rendering: compare through equal? against the all-shared answer
+    eval(format!("(define r-ss ({} ga gb))", name)).unwrap();
+    let mut bad = Vec::new();
+    for (pat, call) in [("left shared, right unique", format!("({} ga {})", name, b)), ("left unique, right shared", format!("({} {} gb)", name, a)),
+                        ("both unique", format!("({} {} {})", name, a, b))] {
+        let same = eval(format!("(equal? r-ss {})", call));
+        if same != Ok("#true".to_string()) {
+            let shown = eval(call.clone());
+            bad.push(format!("{} ({}) => {:?}, but with both operands shared the answer is {:?}", call, pat, shown, eval("r-ss".to_string())));
+        }
+    }
+    for (g, c) in [("ga", "ga-copy"), ("gb", "gb-copy")] {
+        if eval(format!("(equal? {} {})", g, c)) != Ok("#true".to_string()) {
+            bad.push(format!("the operand held by the global {} was changed by the calls: now {:?}", g, eval(g.to_string())));
+        }
+    }
+    if bad.is_empty() {
+        println!("COMPLETED: the four sharing patterns agree and shared operands are unchanged");
+    } else {
+        println!("OBSERVED: {}", bad.join("; "));
+    }
+}
